@@ -18,3 +18,4 @@ import Evenio.Model.Step
 import Evenio.Model.Gates
 import Evenio.Model.Inv
 import Evenio.Model.ParIter
+import Evenio.Model.InvPlus
